@@ -157,12 +157,13 @@ def strategy_(draw, tier):
         for j in range(n):
             t = draw(st.sampled_from(["SPARSE", "FLAT", "VMFS", "VMFSSPARSE", "SESPARSE"]))
             exts.append({"access": draw(st.sampled_from(["RW", "RDONLY", "NOACCESS"])), "sectors": draw(st.integers(0, 2**40)), "type": t,
-                         "file": draw(st.sampled_from(["disk-s001.vmdk", "disk with spaces.vmdk", "dïsk 🦊.vmdk", 'a "quoted" name.vmdk', "d'(1).vmdk"])) ,
+                         "file": draw(st.sampled_from(["disk-s001.vmdk", "disk with spaces.vmdk", "dïsk 🦊.vmdk", 'a "quoted" name.vmdk', "d'(1).vmdk",
+                                                     "Windows 10 #2-s001.vmdk", "#scratch.vmdk"])) ,
                          "offset": draw(st.sampled_from([None, 0, 123])) if t in ("FLAT", "VMFS", "SPARSE") else None})
         d = {"cid": "%08x" % draw(st.integers(0, 2**32 - 1)), "parent_cid": "ffffffff", "create_type": draw(st.sampled_from(["monolithicSparse", "vmfs", "twoGbMaxExtentFlat", "seSparse"])),
              "extents": exts, "crlf": draw(st.booleans()), "comments": draw(st.booleans()),
              "ddb": dict(draw(st.lists(st.tuples(st.sampled_from(["ddb.adapterType", "ddb.geometry.cylinders", "ddb.uuid", "ddb.virtualHWVersion", "ddb.longContentID", "ddb.toolsVersion"]),
-                                                 st.sampled_from(["lsilogic", "1024", "60 00 C2 9a", "", "a = b", "x y z"])), max_size=5, unique_by=lambda x: x[0]))),
+                                                 st.sampled_from(["lsilogic", "1024", "60 00 C2 9a", "", "a = b", "x y z", "build #7 (test)", "# not a comment"])), max_size=5, unique_by=lambda x: x[0]))),
              "extra_attr": dict(draw(st.lists(st.tuples(st.sampled_from(["isNativeSnapshot", "changeTrackPath", "custom.key"]), st.sampled_from(["no", "disk-ctk.vmdk", "v=1"])), max_size=2, unique_by=lambda x: x[0]))),
              "encoding": draw(st.sampled_from([None, "UTF-8", "windows-1252"]))}
         spec = {"kind": kind, "desc": d}
@@ -283,6 +284,18 @@ class Checks:
             eq(out, t, "snapshot.unknown_extra", s.unknown_extra, m["unknown_extra"])
             if len(out.failures) > 2:
                 break
+        # opening snapshot views must leave what the active object reports untouched (the views share objects with it)
+        for s_ in snaps:
+            _view, err = lib(s_.open)
+            if err:
+                out.fail(err.sig("qcow2-snapshot-open"), f"snapshot.open() raised {err.describe()}")
+                break
+        if snaps and not out.failures:
+            eq(out, t, "size (after snapshot.open)", q.size, meta["size"])
+            eq(out, t, "header.size (after snapshot.open)", q.header.size, meta["size"])
+            eq(out, t, "header.l1_size (after snapshot.open)", q.header.l1_size, meta["l1_size"])
+            eq(out, t, "header.l1_table_offset (after snapshot.open)", q.header.l1_table_offset, meta["l1_table_offset"])
+            eq(out, t, "header.nb_snapshots (after snapshot.open)", q.header.nb_snapshots, len(meta["snapshots"]))
         nvar = sum(1 for x in (meta["backing_name"], meta["backing_format"], meta["data_file_name"]) if x)
         out.nontrivial = nvar >= 2 or len(exts) >= 2 or len(meta["snapshots"]) >= 2
         out.cls(f"exts={min(len(exts), 4)}", f"snaps={min(len(meta['snapshots']), 3)}")
